@@ -251,6 +251,8 @@ def runUserSection (r : Report) (sec : Section) (user : String) (probes : List N
   let mut inst : UserInst := .fatal
   let mut mInst : SMap := []
   let mut confInst : String := "-"
+  -- the implementation's OWN dispatcher.Get answer per probe key on that instance (the `g=` of its `build` line)
+  let mut implMap : List (String × String) := []
   for l in sec.lines do
     r := { r with ops := r.ops + 1 }
     match l.op with
@@ -291,6 +293,7 @@ def runUserSection (r : Report) (sec : Section) (user : String) (probes : List N
             inst := .fatal
             mInst := m
             confInst := conf
+            implMap := []
         | _ =>
         -- cache.New with a single configured node returns that node itself (no ring)
         let direct := match ui with | .direct _ => true | _ => false
@@ -319,6 +322,7 @@ def runUserSection (r : Report) (sec : Section) (user : String) (probes : List N
                   r := r.violation sec.idx l.idx s!"history-dependent: {user} dispatch of {showOutcome (.node k)} goes to {b} but to {a} on an instance built from the same nodes and weights in another order, conf=[{conf}] other=[{pconf}]"
           | none => pure ()
           prevBuild := some (norm, conf, addrs)
+          if b = "build" then implMap := (probes.map (·.repr)).zip addrs
           for (k, a) in probes.zip addrs do
             let o : Outcome := if a = "-" then .none else if a = "PANIC" then .panic else .node { kind := kind, repr := a }
             -- also for the single node that cache.New returns directly: it is the one configured node, and its weight
@@ -353,7 +357,12 @@ def runUserSection (r : Report) (sec : Section) (user : String) (probes : List N
           let mine := dedupSorted ((targets.filter (· != .none)).map showAddr)
           let seen := dedupSorted (recs.map (·.1))
           if mine ≠ seen then r := r.mismatch sec.idx l.idx (",".intercalate mine) (",".intercalate seen)
-          let expectedOf (k : String) : Outcome := inst.dispatch H (strKey k)
+          -- the monitor compares with the implementation's own ring (what its dispatcher answered for that key when the
+          -- instance was built): a method that forwards another string than its key, drops a key or mixes keys up sends
+          -- the command to another node than the ring's. (Keys of calls are probe keys; the model is the fallback.)
+          let expectedOf : String → String := fun k => match implMap.find? (·.1 == k) with
+            | some p => p.2
+            | none => showAddr (inst.dispatch H (strKey k))
           for (addr, cmd, shown) in recs do
             r := r.addCover "call-command"
             -- the node must be one the property allows at all
@@ -363,13 +372,13 @@ def runUserSection (r : Report) (sec : Section) (user : String) (probes : List N
               r := r.violation sec.idx l.idx s!"member-only: {user}.{method} sent {cmd} to {addr}, which owns no virtual node, conf=[{confInst}]"
             else if multiKey base then
               for k in shown do
-                if keys.contains k && showAddr (expectedOf k) ≠ addr then
-                  r := r.violation sec.idx l.idx s!"dispatch: {user}.{method} sent {cmd} for key {k} to {addr} but the ring maps that key to {showAddr (expectedOf k)}, conf=[{confInst}]"
+                if keys.contains k && expectedOf k != addr then
+                  r := r.violation sec.idx l.idx s!"dispatch: {user}.{method} sent {cmd} for key {k} to {addr} but the ring maps that key to {expectedOf k}, conf=[{confInst}]"
             else
               match keys with
               | [k] =>
-                if showAddr (expectedOf k) ≠ addr then
-                  r := r.violation sec.idx l.idx s!"dispatch: {user}.{method} sent {cmd} to {addr} but the ring maps its key {k} to {showAddr (expectedOf k)}, conf=[{confInst}] args=[{strsT}]"
+                if expectedOf k != addr then
+                  r := r.violation sec.idx l.idx s!"dispatch: {user}.{method} sent {cmd} to {addr} but the ring maps its key {k} to {expectedOf k}, conf=[{confInst}] args=[{strsT}]"
               | _ => r := r.mismatch sec.idx l.idx "one key" strsT
     | _ => r := r.mismatch sec.idx l.idx "bad-op" (joinSp l.op)
   return r
